@@ -1,12 +1,7 @@
 SPECIFICATION SSpec
 CONSTANTS
-  NB = 2
-  IL = 2
-  RowSz = 2
-  Width = 1
-  Track = TRUE
-  Deviations <- DevPass
-  PortCap = 3
+  Config <- PassT1
+  PortCap = 2
   PostCap = 1
   Payloads <- MCSmall
   MaxReq = 4
